@@ -20,7 +20,13 @@ RULE = ("bencode: generated message streams (1-4 canonical messages: ints of any
         "+ byte mutations of valid streams). EDN: every string of length <= 2 (thorough: <= 3) over 16 (12) "
         "escape-relevant characters plus random length-3 ones, integers, floats, keywords/symbols over a name pool x "
         "namespaces, random nested vectors/lists/sets/maps, each written by edn/write-string and read back by "
-        "edn/read-string (rd 0) and by core/read-string (rd 1); raw texts through both readers. JSON: strings, "
+        "edn/read-string (rd 0) and by core/read-string (rd 1); raw texts through both readers. Exponent floats "
+        "(which edn/read-string splits into two forms, F-19a) occur at top level, in vectors and lists at any "
+        "depth, and for rd 0 directly inside a set only when it is the only member and directly as key/value of "
+        "a map only an odd number of times (the map then has an odd number of forms in every walk order); "
+        "elsewhere the value read back would depend on the hash order in which the writer walks the map/set "
+        "and on duplicates among the split forms, which the list model of maps/sets cannot express (evidence "
+        "field edn_cases_with_order_dependent_exponent_floats must stay 0). JSON: strings, "
         "scalars, nested collections with string/keyword/symbol keys through write-str + read-str. A case is "
         "non-trivial when its value/stream is non-empty; distinct = distinct JSON encoding.")
 TRUSTED = ["CPython int(bytes)/int(str)/str(int) modelled by py_int/dec_Z (base 10, ASCII whitespace, sign, single "
@@ -40,7 +46,10 @@ ASSUMPTIONS = ["bencode decode is modelled with empty opts (identity :string-fn/
                "a nil dict key (negative length prefix in key position, malformed input only) is not representable "
                "in the model (model answers Exc)",
                "maps and sets are lists in the order the writer walks them; values handed to the real code have "
-               "pairwise distinct keys/members (Python equality: 1, 1.0 and true collide)",
+               "pairwise distinct keys/members (Python equality: 1, 1.0 and true collide); the model's walk order is "
+               "the case's order, not the hash order of the real writer, so values whose read-back depends on the "
+               "walk order (exponent floats split by the EDN reader directly inside maps/sets, see RULE) are not "
+               "generated; duplicate detection of the readers is not modelled",
                "the Lisp reader is modelled only on the token language the EDN writer emits; character literals, "
                "tagged elements, ##Inf/##NaN, comments, quote/meta/deref prefixes, octal/hex/ratio/radix numbers "
                "and floats with a fractional significand and an exponent (Lisp reader) answer 'outside the model'",
@@ -144,6 +153,27 @@ def pykey(j):
     return ("other", repr(j))
 
 
+def is_exp_float(j):
+    return isinstance(j, dict) and "f" in j and ("e" in j["f"] or "E" in j["f"])
+
+
+def _n_direct_exp(entries):
+    return sum(is_exp_float(k) + is_exp_float(v) for k, v in entries)
+
+
+def exp_order_hazard(j):
+    """Through the EDN reader (rd 0) an exponent float reads back as TWO forms (F-19a).  Directly inside a set
+    with other members, or an even number of times directly inside a map, the value read back then depends on
+    the hash order of the writer's walk and on duplicate detection after the split -- neither is expressible
+    in the model.  Such values must not be generated for rd 0 (counted in the evidence, must stay 0)."""
+    for e in _walk(j):
+        if "set" in e and len(e["set"]) >= 2 and any(is_exp_float(x) for x in e["set"]):
+            return True
+        if "m" in e and _n_direct_exp(e["m"]) and _n_direct_exp(e["m"]) % 2 == 0:
+            return True
+    return False
+
+
 def gen_edn_leaf(rng, rd, findings=True):
     r = rng.random()
     if r < 0.08:
@@ -185,6 +215,14 @@ def gen_edn(rng, rd, depth, findings=True):
             if pykey(e) not in seen:
                 seen.add(pykey(e))
                 out.append(e)
+        if rd == 0 and len(out) >= 2 and any(is_exp_float(e) for e in out):
+            # the EDN reader splits 1e+23 into 1 and e+23: next to other members the split forms may
+            # collide (#{1e+23 1}, #{1e+23 1e-07} raise "Duplicate values in set"), which the reader
+            # model does not express; an exponent float stays a direct member only of a one-member set
+            if rng.random() < 0.5:
+                out = [e for e in out if is_exp_float(e)][:1]
+            else:
+                out = [e for e in out if not is_exp_float(e)]
         return {"set": out}
     out, seen = [], set()
     for _ in range(n):
@@ -192,8 +230,30 @@ def gen_edn(rng, rd, depth, findings=True):
         if pykey(k) not in seen:
             seen.add(pykey(k))
             out.append([k, gen_edn(rng, rd, depth - 1, findings)])
+    if rd == 0:
+        # each exponent float that is directly a key or a value adds one form when read back (F-19a).  An odd
+        # number of them makes the form count odd: "Map should contain an even number of forms" whatever
+        # the order.  An even number shifts the key/value pairing, and WHICH forms pair up (and whether keys
+        # then collide) depends on the hash order the writer walks the map in, which the model (a list in
+        # case order) cannot know: entries are dropped until the number is odd or zero.
+        while _n_direct_exp(out) and _n_direct_exp(out) % 2 == 0:
+            i = max(i for i, kv in enumerate(out) if is_exp_float(kv[0]) or is_exp_float(kv[1]))
+            del out[i]
     return {"m": out}
 
+
+# exponent floats inside maps/sets, order-independent outcomes (rd 0: an odd number of extra forms in a map is
+# "even number of forms" whatever the order; a one-member set; below a vector/list that is a key or value)
+EDN_EXP_NESTED = [
+    {"m": [[{"f": "1e+23"}, {"i": 5}]]},
+    {"m": [[{"i": 5}, {"f": "1.5e+300"}]]},
+    {"m": [[{"f": "1e+23"}, {"i": 5}], [{"s": "a"}, {"s": "b"}], [{"i": 7}, {"i": 8}]]},
+    {"m": [[{"f": "1e+23"}, {"f": "1e-07"}], [{"s": "a"}, {"f": "1.2e+20"}]]},
+    {"set": [{"f": "1e+23"}]},
+    {"set": [{"v": [{"f": "1e+23"}, {"i": 1}]}, {"kw": [None, "a"]}]},
+    {"m": [[{"v": [{"f": "1e+23"}, {"i": 1}]}, {"i": 5}], [{"s": "a"}, {"l": [{"f": "1e-07"}]}]]},
+    {"v": [{"m": [[{"kw": [None, "a"]}, {"l": [{"f": "-1e+16"}]}], [{"kw": [None, "b"]}, {"i": 1}]]}, {"f": "1e+23"}]},
+]
 
 EDN_TEXTS = ["1e+23", "1e-05", "1.0", "-0.0", ":a.b", ":a.c/b", ":a/b", "a.b", "nil", "-", "-a", "-1", "/", ":/", ":1",
              ":1a", "[1 []]", "()", "(1 2)", "#{1}", "{:a 1}", "{}", "#{}", '""', ":b/a", "a.b/x", "true", ":nil",
@@ -348,6 +408,9 @@ def cases(tier, rng):
             yield {"k": "edn", "rd": rd, "v": {"f": tok}}
         yield {"k": "edn", "rd": rd, "v": {"kw": [None, "a.b"]}}
         yield {"k": "edn", "rd": rd, "v": {"v": [{"kw": ["n", "x.y"]}, {"f": "1e+23"}]}}
+        # exponent floats inside maps and sets, where the outcome cannot depend on the writer's hash order
+        for v in EDN_EXP_NESTED:
+            yield {"k": "edn", "rd": rd, "v": v}
     # strings over escape-relevant characters: exhaustive to length 2 (quick) / 3 (thorough)
     alpha = ESC_ALPHA[:12]
     strs = list(strings_upto(ESC_ALPHA, 2)) if tier == "quick" else list(strings_upto(alpha, 3)) + list(strings_upto(ESC_ALPHA, 2))
@@ -645,4 +708,9 @@ def extra_evidence(cases_, outs):
     for c in cases_:
         dist[c["k"]] = dist.get(c["k"], 0) + 1
     cuts = sum(len(o.get("cuts", [])) for c, o in zip(cases_, outs) if c["k"] == "bstream")
-    return {"input_distribution": dist, "bencode_cut_points_evaluated": cuts}
+    hazard = sum(1 for c in cases_ if c["k"] == "edn" and c["rd"] == 0 and exp_order_hazard(c["v"]))
+    nested = sum(1 for c in cases_ if c["k"] == "edn" and c["rd"] == 0 and has_exp_float(c["v"])
+                 and not is_exp_float(c["v"]))
+    return {"input_distribution": dist, "bencode_cut_points_evaluated": cuts,
+            "edn_cases_with_nested_exponent_floats": nested,
+            "edn_cases_with_order_dependent_exponent_floats": hazard}
